@@ -46,6 +46,10 @@ ALPHA = [
     ("eom_pulse", "g", 52, 0.0, 0.0, "min-delay", False),
     ("modify_eom", "g", 1.0, 0.0, 0.0, False),
     ("disable_eom", "g", False),
+    ("enable_eom", "g2", 2.0, 0.0, 0.0, False),
+    ("eom_pulse", "g2", 52, 0.0, 0.0, "min-delay", False),
+    ("disable_eom", "g2", False),
+    ("add", C52, "g2"),
     ("measure", "ground-rydberg"),
     ("measure", "XY"),
     ("declare_var", "x"),
